@@ -1458,7 +1458,7 @@ func (c *Cluster) loadSegmentBatches(pd *partData, fsys fs, pdir string, base in
 	if err != nil {
 		return nil, err
 	}
-	idxRaw, _ := fsys.ReadFile(filepath.Join(pdir, indexFileName(base)))
+	idxRaw, idxErr := fsys.ReadFile(filepath.Join(pdir, indexFileName(base)))
 
 	// Find the segmentInfo for this base to rebuild epoch ranges and index
 	// from the actual batch data. The snapshot stores segment metadata
@@ -1501,6 +1501,13 @@ func (c *Cluster) loadSegmentBatches(pd *partData, fsys fs, pdir string, base in
 		idxOff := batchIdx * indexEntrySize
 		if idxOff+indexEntrySize <= len(idxRaw) {
 			epoch, maxEarlierTS, inTx, _ = decodeIndexEntry(idxRaw[idxOff : idxOff+indexEntrySize])
+		} else if idxErr == nil {
+			// The index entry is written and synced after the batch, and
+			// a produce is only acknowledged after both: a trailing batch
+			// whose index entry is missing or torn is a partial write.
+			// Keeping it would lose its inTx flag (exposing uncommitted
+			// transactional data) and misalign all later index entries.
+			break
 		}
 
 		batch := &partBatch{
